@@ -270,16 +270,10 @@ func (sc *collection) doBuild(ctx context.Context) (Provider, error) {
 	default:
 	}
 
-	var err error
+	// The root scope's initialization functions run in phase 7, once the
+	// singletons they may depend on exist.
 	rootCtx := context.Background()
-	p.rootScope, err = newScope(p, nil, rootCtx, nil)
-	if err != nil {
-		return nil, &BuildError{
-			Phase:   "scope-creation",
-			Details: "failed to create root scope",
-			Cause:   err,
-		}
-	}
+	p.rootScope = newUninitializedScope(p, nil, rootCtx, nil)
 
 	// Phase 6: Create singletons with context propagation
 	if err := p.createAllSingletonsWithContext(ctx); err != nil {
@@ -296,6 +290,25 @@ func (sc *collection) doBuild(ctx context.Context) (Provider, error) {
 		return nil, &BuildError{
 			Phase:   "singleton-creation",
 			Details: "failed to initialize singletons",
+			Cause:   err,
+		}
+	}
+
+	// Phase 7: Run scoped initialization functions for the root scope
+	if err := p.rootScope.runInitializers(); err != nil {
+		// Clean up the singletons created so far
+		closeErr := p.Close()
+		if closeErr != nil {
+			return nil, &BuildError{
+				Phase:   "cleanup",
+				Details: "failed to clean up partially created provider",
+				Cause:   closeErr,
+			}
+		}
+
+		return nil, &BuildError{
+			Phase:   "scope-creation",
+			Details: "failed to create root scope",
 			Cause:   err,
 		}
 	}
